@@ -873,6 +873,20 @@ pub fn protocol_of(p: u8) -> Protocol {
     }
 }
 
+/// Unrelated calls that FAIL, made on the current thread before a build is judged: a batch whose second item is too
+/// large, a single oversize TLV, a TLV written into a writer that is already full. A builder or writer that fails must
+/// leave nothing behind that the next, unrelated build could pick up.
+pub fn failing_calls_noise() {
+    let big = vec![0x5Au8; 65_536];
+    let _ = crate::engine::guard(|| {
+        let _ = Builder::new(0x21, 0x11).write_payloads([(0x30u8, &b"edge"[..]), (0x04u8, &big[..])]);
+        let _ = Builder::new(0x21, 0x11).write_payload(7u8).and_then(|b| b.write_tlv(0x01u8, &big));
+        let mut full = Writer::from(vec![0u8; 65_600]);
+        let _ = (0x20u8, &[1u8, 2, 3, 4, 5][..]).write_to(&mut full);
+        let _ = TypeLengthValue::new(0x02u8, b"x").write_to(&mut full);
+    });
+}
+
 /// Execute a history against the real builder.
 pub fn execute(h: &History) -> Trace {
     let mut trace = Trace { ops: Vec::new(), build: None, build_panic: None };
